@@ -495,6 +495,14 @@ def cliDiag (o : CliOpts Float) (seed : Nat) (g : Game Float) : String :=
       if o.method == Method.full && o.parallel == 1 && o.iters ≤ 100000 then
         marginsVanilla g false o.discount.intoParams draw o.maxRegret o.iters 1 (SolveSt.init g) fInf
       else fInf
+    -- the clip step keeps `p > threshold`: a probability at the threshold up to rounding makes the
+    -- outcome depend on the last bit
+    let clipMargin : Float :=
+      if o.clipThreshold > 0.0 then
+        (out.stratOne ++ out.stratTwo).foldl (fun m v =>
+          v.foldl (fun m p => fmin m (Float.abs (p - o.clipThreshold) / o.clipThreshold)) m) fInf
+      else fInf
+    let margin := fmin margin clipMargin
     s!"D {if pruned then 1 else 0} {fHex info.regret} {fHex pInfo.regret} {fHex margin}"
 
 /-- the whole program on an already loaded game -/
